@@ -137,7 +137,7 @@ func detrestSAResultStr(res *gozxing.Result) string {
 
 func detrestSASuite(c *Ctx) {
 	r := c.Rng.Fork()
-	n := c.Pick(1500, 40000)
+	n := c.Pick(1200, 40000)
 	keysAll := []int{int(gozxing.ResultMetadataType_OTHER), int(gozxing.ResultMetadataType_BYTE_SEGMENTS), int(gozxing.ResultMetadataType_ERROR_CORRECTION_LEVEL),
 		int(gozxing.ResultMetadataType_STRUCTURED_APPEND_SEQUENCE), int(gozxing.ResultMetadataType_STRUCTURED_APPEND_PARITY),
 		int(gozxing.ResultMetadataType_SYMBOLOGY_IDENTIFIER)} // ascending: the canonical output sorts the keys
@@ -375,7 +375,7 @@ func detrestSortedDesc(ps []*qrdetector.FinderPattern) bool {
 }
 
 func detrestMultiFinder(c *Ctx, r *Rng) {
-	n := c.Pick(500, 15000)
+	n := c.Pick(400, 15000)
 	for it := 0; it < n && c.TimeLeft(); it++ {
 		img := detrestMultiImg(r, c.Pick(130, 300))
 		bits := c06detBits(img.bm)
